@@ -124,7 +124,7 @@ def _jobs_for(prop, tier):
         if quick:
             return storage_jobs([(D, 0), (R, 0)])
         return storage_jobs([(c, 0) for c in ALL_CFGS], threads=2)
-    if prop in ('C15', 'C05'):
+    if prop in ('C15', 'C05', 'C16'):
         return [Job('macros', D, 0, build.build_macros_unit, threads=4)]
     if prop == 'C19':
         if quick:
@@ -146,7 +146,9 @@ def extra_backends(prop, tier, seed):
 A_MACROS = [
     A_COMMON[0],
     'A-dep: syn / proc_macro2 types are stubs (contracts/macros_stub.rs): an identifier or token stream is abstracted by its text; to_string() is a function of that text; clone preserves it. '
-    'evaluate_cfgs is assumed to be a deterministic function of the lookup table and the predicates (its body reads a HashMap<String, bool>).',
+    'evaluate_cfgs / is_cfg_enabled are verified (an item is enabled iff every one of its predicates is true in the lookup table) under the caller assumption that every predicate decorating an item is a key of the table '
+    '(decl_cfgs_known / cfgs_known; justified by the verified collection functions collect_all_cfg_predicates / get_cfg_predicates - complete, sound, pairwise distinct - plus A-zip: '
+    'the loop of ParseCfgDecorated::parse, which inserts one table entry per collected predicate, is syn parser code and not under contract).',
     'A-derive: the derived Clone impls of the parse types (ParseQueryParam, ParseQueryParamType, ParseAttributeCfg) are field-wise (the derives are dropped by R-derive and replaced by trusted stand-ins).',
     'A-std: String obeys the HashMap key model and is determined by its content (axiom_string_obeys_key_model, axiom_string_ext; vstd has the key-model axiom for the primitive types only); Vec::drain(..) consumed by a for loop yields the elements in order (R-drain).',
     'Caller assumptions (preconditions of bind_query_params): the parser never produces the reserved parameter variants Option/With/Without; archetype names of one world are pairwise distinct.',
@@ -160,9 +162,12 @@ A_MACROS = [
 
 def meta_for(prop):
     m = {'assumptions': list(A_COMMON), 'trusted_base': list(TB_COMMON)}
-    if prop in ('C05', 'C15'):
+    if prop in ('C05', 'C15', 'C16'):
         m = {'assumptions': list(A_MACROS), 'trusted_base': ['Verus 0.2026.09.13 (rust_verify, vstd)', 'Z3 (bundled with Verus)', 'rustc 1.98.1 front end',
                                                               'gv/extract.py extraction rules (R-*)', 'contracts/macros_stub.rs (syn stand-ins)']}
+        if prop == 'C16':
+            m['assumptions'].append('C16 is decided RELATIVE TO THE EVALUATED cfg TABLE: the evaluation of the predicates themselves (the generated cfg-probing macro chain of macros/src/generate/cfg.rs, i.e. rustc), '
+                                    'the order in which that chain threads its booleans, the syn parsers, and the #[cfg] attributes re-emitted on closure parameters are outside these contracts (partial claim).')
         if prop == 'C15':
             m['assumptions'].append('Kani harness select_conversions_all_ids (one declared world) is a complete check of the generated Select* tables for THAT declaration only.')
     if prop in TEMPLATE_PROPS:
